@@ -289,7 +289,12 @@ def print_direct(rep, lib, rid="C19-PRINT-DIRECT"):
             continue
         want_ty = m.split("_")[1]
         key = "%s::%s" % (name.split(" as ")[0].lstrip("<").rsplit("::", 1)[-1], m)
-        sites = lib.fmt_in(name)
+        # the templates of the writes that are part of the analysed body (a write that only runs under an option the
+        # rules do not know is not: lib/specialize.py)
+        from rules.printer_rules import fmt_site, is_write_fmt
+        sites = [x for x in (fmt_site(lib, c) for c in b.calls if is_write_fmt(c)) if x is not None]
+        if not sites and not any(is_write_fmt(c) for c in b.calls):
+            sites = lib.fmt_in(name)
         casts = [rv for bb, idx, place, rv, _ in b.assignments() if rv["k"] == "cast"
                  and rv["cast"] in ("IntToFloat", "FloatToInt", "IntToInt", "FloatToFloat")]
         args = [c for c in b.calls if (c.name or "").startswith("core::fmt::rt::Argument::<'_>::new_")]
